@@ -418,3 +418,8 @@ Theorem C18_sat_respects_eqv_ids_refuted :
   ~ sat_respects_eqv ex_g (isla_sat cx_cst ri_phi).
 Proof. exact sat_respects_eqv_ids_refuted. Qed.
 Print Assumptions C18_sat_respects_eqv_ids_refuted.
+
+Example C18_mutant_is_run_nonvacuous :
+  mutant_is_run ex_g (fun inp _ => Ok inp) /\ mutant_valid ex_g (fun inp _ => Ok inp).
+Proof. exact mutant_is_run_ex. Qed.
+Print Assumptions C18_mutant_is_run_nonvacuous.
